@@ -47,7 +47,10 @@ def strategy_(draw, tier):
     cmd = draw(st.sampled_from(["empty", "empty_days", "rm_star", "rm_name", "empty_trash_dir"]))
     return {"layout": tw.layout, "uid": tw.uid, "ents": ents, "cmd": cmd,
             "indirection": indirection,
-            "flags": draw(st.sampled_from([[], [], ["-v"], ["-v"], ["-vv"], ["--dry-run"], ["--dry-run", "-v"]]))}
+            "flags": draw(st.sampled_from([[], [], ["-v"], ["-v"], ["-vv"], ["--dry-run"], ["--dry-run", "-v"]])),
+            # every unlink / rmdir / remove answers EACCES (what a non-root user gets inside read-only
+            # directories): whatever error handling runs, it must not touch anything outside either
+            "fault": draw(st.sampled_from([None, None, None, "unlink", "rmdir", "remove"]))}
 
 
 def strategy(tier):
@@ -130,15 +133,28 @@ def run_case(case):
     sandbox.build_world(spec)
     before = sandbox.snapshot()
     cmd = case["cmd"]
+    fplan = None
+    if case.get("fault"):
+        import errno as _errno
+        fplan = {"faults": [{"k": None, "op": case["fault"], "path": None, "errno": _errno.EACCES}]}
+    _run = runner.run
+
+    class _R(object):   # runner.run with the fault plan of this case
+        @staticmethod
+        def run(spec_, script, args, **kw):
+            if fplan is not None:
+                kw["plan"] = dict(fplan)
+            return _run(spec_, script, args, **kw)
+    runner_ = _R
     fl = list(case.get("flags", []))   # trash-rm has no options: flags apply to trash-empty only
     if cmd == "empty":
-        res = runner.run(spec, "trash-empty", fl)
+        res = runner_.run(spec, "trash-empty", fl)
     elif cmd == "empty_days":
-        res = runner.run(spec, "trash-empty", fl + ["30"], env={"TRASH_DATE": "2020-01-01T00:00:00"})
+        res = runner_.run(spec, "trash-empty", fl + ["30"], env={"TRASH_DATE": "2020-01-01T00:00:00"})
     elif cmd == "rm_star":
-        res = runner.run(spec, "trash-rm", ["*"])
+        res = runner_.run(spec, "trash-rm", ["*"])
     elif cmd == "rm_name":
-        res = runner.run(spec, "trash-rm", [made[0][3].rsplit("/", 1)[-1].replace("[", "[[]")
+        res = runner_.run(spec, "trash-rm", [made[0][3].rsplit("/", 1)[-1].replace("[", "[[]")
                                             if made else "x"])
     else:
         td = remap.get(case["ents"][0]["tdir"], case["ents"][0]["tdir"])
@@ -149,7 +165,7 @@ def run_case(case):
             import os
             os.symlink(td, sandbox.wp("/td-link"))
             before = sandbox.snapshot()
-        res = runner.run(spec, "trash-empty", fl + ["--trash-dir", arg])
+        res = runner_.run(spec, "trash-empty", fl + ["--trash-dir", arg])
     after = sandbox.snapshot()
     tags = dict(cmd=cmd, special="dot_trashinfo" if "dot_trashinfo" in special_seen else "other")
     tdirs = [t for t in oracle.trash_dirs_in(before)]
@@ -191,11 +207,12 @@ def run_case(case):
                     cmd, name, q, canon), **tags)
                 break
     out.classes += ["cmd:" + cmd, "indirection:" + case["indirection"], "exit:%d" % res.code,
+                    "fault:%s" % case.get("fault"),
                     "flags:" + ("+".join(fl) if cmd.startswith("empty") else "n/a")] + \
         ["special:" + s for s in special_seen] + ["link:" + l for l in link_kinds]
     if link_kinds:
         out.key = [cmd, sorted(link_kinds), sorted(special_seen - {"none"}), case["indirection"],
-                   fl if cmd.startswith("empty") else []]
+                   fl if cmd.startswith("empty") else [], case.get("fault")]
         out.sample = {"cmd": cmd, "links": sorted(link_kinds), "special": sorted(special_seen),
                       "indirection": case["indirection"], "exit": res.code,
                       "mutating_ops": sum(1 for t in res.trace if t[1])}
